@@ -62,7 +62,8 @@ fn spell(ch: &mut Choices, from: &str, to: &str) -> String {
 pub fn split_into_files(ch: &mut Choices, doc: &MOpDoc) -> FileSplit {
     let frag_names: Vec<String> = doc.iter().filter_map(|d| if let MExecDef::Frag(f) = d { Some(f.name.clone()) } else { None }).collect();
     let has_ops = doc.iter().any(|d| matches!(d, MExecDef::Op(_)));
-    let k = if frag_names.is_empty() || !has_ops { 0 } else { ch.below(LIB_PATHS.len() + 1).min(frag_names.len()) };
+    // with fragments present: a single file in 1 of 5 cases, else 1-3 library files
+    let k = if frag_names.is_empty() || !has_ops || ch.chance(1, 5) { 0 } else { (1 + ch.below(LIB_PATHS.len())).min(frag_names.len()) };
     if k == 0 {
         return FileSplit { files: vec![("main.graphql".into(), doc.clone())], max_chain: 0, diamond: false, specific_imports: false, wildcard_imports: false };
     }
